@@ -22,10 +22,13 @@ BackoffHi(k) == IF cfg.bo = "rand" THEN (3 * Backoff(k) + 1) \div 2 + 1 ELSE Bac
 Aimd == "btype" \in DOMAIN cfg /\ cfg.btype = "aimd"
 Cost == IF Aimd THEN cfg.cost ELSE 1
 Max2(a, b) == IF a > b THEN a ELSE b
-AfterDeposit == IF ~HasBudget0 THEN <<tokens, blim>>
-                ELSE IF Aimd THEN <<Min2(tokens + cfg.amount, blim), Min2(blim + 1, cfg.bmax)>>
-                ELSE <<Min2(tokens + 1, cfg.bmax), blim>>
-AfterRefusal == IF Aimd THEN <<tokens, Max2((blim * cfg.fnum) \div 4, cfg.bmin)>> ELSE <<tokens, blim>>
+\* C05 is about grants, not about the AIMD ceiling's dynamics (C08 / C13 bound it): a deposit is capped by some
+\* ceiling within [bmin, bmax], the ceiling may move anywhere within those bounds (sets of <<tokens', blim'>>)
+AimdLims == cfg.bmin..cfg.bmax
+AfterDeposit == IF ~HasBudget0 THEN {<<tokens, blim>>}
+                ELSE IF Aimd THEN {<<Min2(tokens + cfg.amount, c), l2>> : c \in AimdLims, l2 \in AimdLims}
+                ELSE {<<Min2(tokens + 1, cfg.bmax), blim>>}
+AfterRefusal == IF Aimd THEN {<<tokens, l2>> : l2 \in AimdLims} ELSE {<<tokens, blim>>}
 MaxAtt(c) == IF cfg.perReq = 1 THEN key[c] - 1 ELSE cfg.max
 Retryable(o) == o = "e1" \/ (o = "e2" /\ cfg.pred = "all")
 HasBudget == cfg.budget >= 0
@@ -74,10 +77,10 @@ ErrEv(c) == [res |-> "err", kind |-> (IF gout[c] = "e1" THEN "inner1" ELSE "inne
 PollOutcome(c) ==
   /\ st[c] = "calling" /\ gout[c] \in {"ok", "e1", "e2"}
   /\ IF gout[c] = "ok"
-     THEN Fin(c, [res |-> "ok", val |-> gid[c], rq |-> c], AfterDeposit)             \* success funds the budget
+     THEN \E tb \in AfterDeposit : Fin(c, [res |-> "ok", val |-> gid[c], rq |-> c], tb)   \* success funds the budget
      ELSE IF ~Retryable(gout[c]) THEN Fin(c, ErrEv(c), <<tokens, blim>>)               \* refused by the predicate
      ELSE IF attempt[c] + 1 >= MaxAtt(c) THEN Fin(c, ErrEv(c), <<tokens, blim>>)      \* attempts exhausted
-     ELSE IF HasBudget /\ tokens < Cost THEN Fin(c, ErrEv(c), AfterRefusal)           \* no grant, no retry
+     ELSE IF HasBudget /\ tokens < Cost THEN \E tb \in AfterRefusal : Fin(c, ErrEv(c), tb)   \* no grant, no retry
      ELSE /\ st' = [st EXCEPT ![c] = "sleeping"] /\ attempt' = [attempt EXCEPT ![c] = @ + 1]
           /\ until' = [until EXCEPT ![c] = now + BackoffLo(attempt[c])]
           /\ untilHi' = [untilHi EXCEPT ![c] = now + BackoffHi(attempt[c])]
